@@ -667,7 +667,7 @@ func main() {
 		for _, cs := range corpus(c.Rng.Fork("corpus")) {
 			all = append(all, run(c, cs)...)
 		}
-		n := c.Scale(260, 6000)
+		n := c.Scale(150, 5000)
 		for i := 0; i < n; i++ {
 			kind := kinds[c.Rng.Intn(len(kinds))]
 			all = append(all, run(c, gen(c.Rng, kind, sizeOf(c.Rng)))...)
